@@ -239,6 +239,14 @@ impl<'a> Gen<'a> {
             return vec![D { text: format!("{name} {ty} ::= {v}"), name, kind: Kind::Value, shape: p.into(), refs: vec![], fault: None }];
         }
         if roll < 90 || !self.info_objects {
+            // a value governed by a selection type of an available CHOICE
+            let chos: Vec<&(String, String)> = avail.iter().filter(|(_, s)| s == "Cho").collect();
+            if !chos.is_empty() && rng.chance(1, 5) {
+                let (tn, _) = chos[rng.below(chos.len())].clone();
+                let (alt, v) = *rng.pick(&[("x", "NULL"), ("y", "\"sel\"")]);
+                let name = format!("vsel{uid}");
+                return vec![D { text: format!("{name} {alt} < {tn} ::= {v}"), name, kind: Kind::Value, shape: "vSel".into(), refs: vec![tn], fault: None }];
+            }
             // value of a referenced type
             let cands: Vec<&(String, String)> = avail.iter().filter(|(_, s)| value_of_shape(s, &mut Rng::new(0)).is_some()).collect();
             if let Some((tn, ts)) = cands.get(rng.below(cands.len().max(1))).cloned() {
